@@ -368,6 +368,31 @@ def run_fields(chk, F):
                         (x.get("k") == "return" and "expr" in short(x.get("e"))) for x in walk(n["then"]))
     chk.ob(rid, "subst|identifier", ident, "expression_t::subst does not replace IDENTIFIER nodes of the symbol",
            "%s:%s" % (su["file"], su["line"]))
+    # `return *this` (nothing replaced) only for an empty node or a leaf: never depending on the replacement
+    early_bad = []
+    def chain(n):
+        out = []
+        while isinstance(n, dict) and n.get("k") == "if":
+            out.append((n["c"], n["then"]))
+            n = n.get("else")
+        return out
+    for st in su["body"].get("s", []):
+        for cond, then in chain(st):
+            returns_this = any(x.get("k") == "return" and (x.get("e") or {}).get("k") in ("un", "construct") and
+                               "this" in short(x.get("e")) for x in walk(then))
+            if not returns_this:
+                continue
+            for c in calls(cond):
+                on_this = c.get("recv") is None or c["recv"].get("k") == "this"
+                if not (on_this and c.get("name") in ("empty", "get_size")) and c.get("ck") != "op":
+                    early_bad.append(short(cond)[:100])
+            for x in walk(cond):
+                if x.get("k") == "ref" and x.get("dk") == "param":
+                    early_bad.append(short(cond)[:100])
+    chk.ob(rid, "subst|unchanged-only-for-leaves", not early_bad,
+           "expression_t::subst returns the node unchanged under a condition that depends on more than the node being "
+           "empty or a leaf (%s): occurrences of the symbol below it are not replaced" % sorted(set(early_bad)),
+           "%s:%s" % (su["file"], su["line"]))
     recs = any(c.get("name") == "subst" for n in walk(su["body"]) if n.get("k") == "for" for c in calls(n["body"]))
     chk.ob(rid, "subst|children", recs, "expression_t::subst does not recurse into every child",
            "%s:%s" % (su["file"], su["line"]))
